@@ -52,9 +52,58 @@ theorem C17_nonce_check (mac : Mac) (h : Helper) (n' : Bytes) (rs rs' : List KVR
     (hinj : MacInj mac h.secret) (hlen : h.lastNonce.length = n'.length)
     (hacc : h.checkHmac mac rs (sharedTag mac h.secret n' rs') = true) :
     n' = h.lastNonce ∧ encRecs rs' = encRecs rs := by
-  simp only [Helper.checkHmac, beq_iff_eq] at hacc
+  simp only [Helper.checkHmac, accept, beq_iff_eq] at hacc
   have := C17_nonce mac h.secret n' h.lastNonce rs' rs hinj hlen.symm hacc
   exact this
+
+/-! ### acceptance is exact -/
+
+/-- the acceptance test is equality of byte lists: in particular the lengths agree -/
+theorem accept_iff (received expected : Bytes) : accept received expected = true ↔ received = expected := by
+  simp [accept]
+
+/-- a received tag of any other length (empty, truncated, extended) is refused, whatever its bytes -/
+theorem accept_length (received expected : Bytes) (h : received.length ≠ expected.length) :
+    accept received expected = false := by
+  cases hacc : accept received expected with
+  | false => rfl
+  | true => rw [accept_iff] at hacc; subst hacc; exact absurd rfl h
+
+/-- **C17_accept_exact**: `check_hmac` accepts a received tag only if it is, byte for byte and in full
+    length, the MAC of exactly the presented records under the helper's secret and *current* nonce (no
+    hypothesis on the MAC).  With `MacInj` and `C17_nonce_check`: a tag made for another request, another
+    nonce or other record bytes is refused. -/
+theorem C17_accept_exact (mac : Mac) (h : Helper) (rs : List KVRec) (received : Bytes) :
+    h.checkHmac mac rs received = true ↔ received = mac h.secret (encShared h.secret h.lastNonce rs) := by
+  simp [Helper.checkHmac, accept, sharedTag]
+
+/-- in particular nothing shorter or longer than the expected tag authenticates a reply — the empty tag
+    included -/
+theorem C17_accept_no_truncation (mac : Mac) (h : Helper) (rs : List KVRec) (received : Bytes)
+    (hlen : received.length ≠ (mac h.secret (encShared h.secret h.lastNonce rs)).length) :
+    h.checkHmac mac rs received = false := by
+  simp only [Helper.checkHmac, sharedTag]
+  exact accept_length _ _ hlen
+
+/-- **C17_value_accept_exact**: `remove_and_check_hmac` accepts a stored value only if it is exactly
+    `content ‖ MAC(secret, key ‖ be64 version ‖ content)` for the content it returns — the last 32 bytes are
+    compared in full with the tag of the bytes before them. -/
+theorem C17_value_accept_exact (mac : Mac) (s k stored x : Bytes) (v : Nat)
+    (h : processValue mac s k v stored = some x) :
+    stored = x ++ mac s (encValue k v x) ∧ 32 ≤ stored.length := by
+  unfold processValue at h
+  split at h
+  · cases h
+  · rename_i hlen
+    simp only [] at h
+    split at h
+    · rename_i hacc
+      cases h
+      rw [accept_iff] at hacc
+      refine ⟨?_, by omega⟩
+      simp only [valueTag] at hacc
+      rw [← hacc, List.take_append_drop]
+    · cases h
 
 /-- client and server tags over anything never coincide (domain bytes 0x01 / 0x02) -/
 theorem C17_client_server_distinct (mac : Mac) (h : Helper) (rs rs' : List KVRec)
@@ -87,7 +136,8 @@ theorem C17_value_accept (mac : Mac) (s k k' x x' : Bytes) (v v' : Nat) (hinj : 
     split at h
     · rename_i heq
       cases h
-      have := hinj _ _ heq
+      rw [accept_iff] at heq
+      have := hinj _ _ heq.symm
       have := enc3_inj hk.symm hv' hv this
       exact this
     · cases h
